@@ -374,7 +374,14 @@ func intrAssert(fr *frame, args []value) value {
 		case sym.Sat:
 			i.recordFindingModel("assert", label, "assertion can be false", tape, obs, as)
 		default:
-			i.recordInconclusive("unknown", label, "solver returned unknown on the assertion query: "+i.solver.LastErr)
+			// second opinion: the same query in fresh processes of the other installed solvers. Only
+			// "unsat" is taken from them (the assertion holds on this path); anything else leaves the
+			// item inconclusive.
+			if i.secondOpinionUnsat(as) {
+				i.Stats.SecondOpinions++
+			} else {
+				i.recordInconclusive("unknown", label, "solver returned unknown on the assertion query: "+i.solver.LastErr)
+			}
 		}
 		// if the assertion cannot hold at all on this path, stop here
 		if r == sym.Sat && i.feasible(c) == sym.Unsat {
@@ -477,3 +484,20 @@ func ratToFloat(r *big.Rat) float64 {
 }
 
 var _ = math.Pi
+
+// secondOpinionUnsat asks z3 4.8.12 and cvc5 whether the assertions are unsatisfiable.
+func (i *interpreter) secondOpinionUnsat(as []*sym.Term) bool {
+	script := i.ctx.Script(as, i.solver.Axioms(), false)
+	t := i.cfg.QueryTimeout / 1000
+	if t < 20 {
+		t = 20
+	}
+	if r, _ := sym.OneShot("z3", script+"\n", t); r == sym.Unsat {
+		return true
+	}
+	cs := strings.ReplaceAll(script, "(bv2int ", "(bv2nat ")
+	if r, _ := sym.OneShot("cvc5", "(set-logic ALL)\n"+cs+"\n", t); r == sym.Unsat {
+		return true
+	}
+	return false
+}
